@@ -9,7 +9,7 @@ import random
 KINDS = ["ANY", "ONE", "NOTONE", "RANGE", "NOTRANGE", "RANGES", "STRING", "ISTRING", "EOF_", "EOL", "BOL", "BOF", "BYTES", "SUCCESS", "FAILURE",
          "SEQ", "SOR", "STAR", "PLUS", "OPT", "AT", "NOTAT", "RAISE", "TRY", "REMATCH", "PARTIAL", "STARPARTIAL", "ENABLE", "DISABLE",
          "ACTFAM", "CTLFAM", "STATE", "APPLY", "APPLY0", "IFAPPLY", "DISCARD", "REQUIRE", "NAMED", "VIS",
-         "U8ANY", "U8ONE", "U8RANGE", "U8NOTONE", "UNSIGNED_RULE", "SIGNED_RULE", "MAXIMUM_RULE", "REP_ONE_MIN_MAX", "U8_ONE_BYTEWISE"]
+         "U8ANY", "U8ONE", "U8RANGE", "U8NOTONE", "UNSIGNED_RULE", "SIGNED_RULE", "MAXIMUM_RULE", "REP_ONE_MIN_MAX", "U8_ONE_BYTEWISE", "RAWSTRING"]
 
 A_NONE, A_APPLY, A_APPLY0, A_VETO, A_VETO0, A_THROW, A_THROW_ALIEN = range(7)
 A_CHANGE_STATE, A_CHANGE_STATES, A_CHANGE_ACTION, A_CHANGE_ACTION_AND_STATE, A_CHANGE_CONTROL, A_ENABLE_ACTION, A_DISABLE_ACTION = range(7, 14)
@@ -152,6 +152,69 @@ class G:
             return self.vis("bytes< %d >" % n, self.add("BYTES", a0=n))
         if k == "bof":
             return self.vis("bof", self.add("BOF"))
+        if k == "u8any":
+            self.alpha.update("\xe2\x82\xac")
+            return self.vis("utf8::any", self.add("U8ANY"))
+        if k == "u8one":
+            self.alpha.update("\xe2\x82\xac")
+            return self.vis("utf8::one< 0x20AC, 0x0A >", self.add("U8ONE", "\xe2\x82\xac\n"))
+        if k == "u8range":
+            self.alpha.update("\xe2\x82\xac")
+            return self.vis("utf8::range< 0x0A, 0x20AC >", self.add("U8RANGE", a0=0x0A, a1=0x20AC))
+        if k == "u8notone":
+            self.alpha.update("\xe2\x82\xac")
+            return self.vis("utf8::not_one< 0x20AC >", self.add("U8NOTONE", "\xe2\x82\xac"))
+        if k == "uint8_any":
+            return self.vis("uint8::any", self.add("ANY"))
+        if k == "uint8_one_nl":
+            self.alpha.update("\n\r")
+            return self.vis("uint8::one< 10, 13 >", self.add("ONE", "\n\r"))
+        if k == "uint8_mask":
+            self.alpha.update("\n\r")
+            return self.vis("uint8::mask_one< 0xF0, 0x00 >", self.add("RANGE", "\x00\x0f"))
+        if k == "one_cr":
+            self.alpha.update("\r")
+            return self.vis("one< '\\r' >", self.add("ONE", "\r"))
+        if k == "not_one_a":
+            self.alpha.update("a\n\r")
+            return self.vis("not_one< 'a' >", self.add("NOTONE", "a"))
+        if k == "range_ctl":
+            self.alpha.update("\n\r")
+            return self.vis("range< char( 1 ), char( 31 ) >", self.add("RANGE", "\x01\x1f"))
+        if k == "not_range_ab":
+            self.alpha.update("a\n\r")
+            return self.vis("not_range< 'a', 'b' >", self.add("NOTRANGE", "ab"))
+        if k == "ranges_nl":
+            self.alpha.update("a\n\r")
+            return self.vis("ranges< 'a', 'b', '\\n' >", self.add("RANGES", "ab\n"))
+        if k == "string_nl":
+            self.alpha.update("a\n\r")
+            return self.vis("string< 'a', '\\n', '\\r' >", self.add("STRING", "a\n\r"))
+        if k == "istring_nl":
+            self.alpha.update("a\n")
+            return self.vis("istring< '\\n', 'a' >", self.add("ISTRING", "\na"))
+        if k == "bytes2":
+            return self.vis("bytes< 2 >", self.add("BYTES", a0=2))
+        if k == "unsigned_rule":
+            self.alpha.update("01a")
+            return self.vis("unsigned_rule", self.add("UNSIGNED_RULE"))
+        if k == "signed_rule":
+            self.alpha.update("-01")
+            return self.vis("signed_rule", self.add("SIGNED_RULE"))
+        if k == "maximum_rule":
+            mx = r.choice([0, 1, 9, 10, 11, 100])
+            self.alpha.update("019")
+            return self.vis("maximum_rule< unsigned char, %d >" % mx, self.add("MAXIMUM_RULE", a0=0, a1=mx, a2=8))
+        if k == "rep_one_min_max":
+            lo = r.randint(0, 2)
+            hi = lo + r.randint(0, 2)
+            if hi == 0:
+                hi = 1
+            self.alpha.update("0a")
+            return self.vis("rep_one_min_max< %d, %d, '0' >" % (lo, hi), self.add("REP_ONE_MIN_MAX", "0", a0=lo, a1=hi))
+        if k == "raw_string":
+            self.alpha.update("[=]a")
+            return self.vis("raw_string< '[', '=', ']' >", self.add("RAWSTRING", "[=]"))
         if k == "require":
             n = r.randint(0, 4)
             return self.vis("require< %d >" % n, self.add("REQUIRE", a0=n))
@@ -358,12 +421,14 @@ class G:
                 return (self.names[i], self.named_ids[i])
             if self.profile == "buf" and r.random() < 0.12:
                 return self.atom("require")
+            if self.profile == "contrib" and r.random() < 0.7:
+                return self.atom(r.choice(["unsigned_rule", "signed_rule", "maximum_rule", "rep_one_min_max", "raw_string", "raw_string", "unsigned_rule"]))
             if self.profile in ("buf", "conv") and r.random() < 0.04:
                 return self.atom("everything")
             return self.atom()
         ops = list(self.CORE_OPS)
         p = self.profile
-        if p in ("conv", "tree", "buf"):
+        if p in ("conv", "tree", "buf", "contrib"):
             ops += self.CONV_OPS
         if p in ("exc", "tree"):
             ops += self.EXC_OPS + ["until", "list", "pad", "rep_min_max", "partial"]
@@ -471,6 +536,26 @@ class G:
                 self.bodies.append(("seq< one< 'a' >, opt< %s >, %s >" % (self.names[j], bcpp), self.add("SEQ", kids=(a[1], o[1], inner[1]))))
         self.close()
 
+    ATOMS_POS = ["any", "one_nl", "one_cr", "not_one_a", "range_ctl", "not_range_ab", "ranges_nl", "string_nl", "istring_nl", "bytes2", "eol", "eolf",
+                 "u8any", "u8one", "u8range", "u8notone", "uint8_any", "uint8_one_nl", "uint8_mask", "raw_string", "rep_one_min_max"]
+
+    def atoms_grammar(self, i):
+        """position discipline of single rules: star< sor< A1, A2, any > > consumes everything through the atoms under test"""
+        r = self.rnd
+        a1 = self.ATOMS_POS[i % len(self.ATOMS_POS)]
+        a2 = r.choice(self.ATOMS_POS)
+        self.alpha.update("\n\r")
+        mode = r.randint(0, 2)
+        x1, x2 = self.atom(a1), self.atom(a2)
+        if mode == 0:
+            body = self.op("star", [self.op("sor", [x1, x2, self.atom("any")])])
+        elif mode == 1:
+            body = self.op("seq", [self.op("until", [x1]), self.op("star", [self.op("sor", [x2, self.atom("any")])])])
+        else:
+            body = self.op("star", [self.op("sor", [self.op("seq", [x1, x2]), self.atom("any")])])
+        self.cell = "atoms:%s" % a1
+        self.single(body[0], body[1])
+
     def buf_grammar(self):
         """named rules without discard, then a top rule that discards only between top-level parts (documented-safe points)"""
         r = self.rnd
@@ -509,8 +594,9 @@ class G:
                 self.alpha.add(c)
                 break
         al = sorted(self.alpha)
-        while len(al) > 5:
-            al.remove(self.rnd.choice([c for c in al if c not in "ab\n"] or al))
+        keep = "01[=]-" if self.profile == "contrib" else ("\n\r\xe2\x82\xac" if self.profile == "atoms" else "ab\n")
+        while len(al) > (6 if self.profile in ("contrib", "atoms") else 5):
+            al.remove(self.rnd.choice([c for c in al if c not in keep] or al))
         self.alphabet = "".join(al)
 
     def single(self, cpp, cid, extra_named=()):
@@ -811,7 +897,7 @@ def make_tus(profile, seed, count, per_tu=10, prop=None):
                 gi += 1
             tus.append(("chain-%d-%d" % (seed, i // 7), emit_tu(tu, seed * 977 + i), len(tu.grammars)))
         return tus
-    default_prop = {"core": "C01", "conv": "C09", "exc": "C05", "act": "C04", "tree": "C12", "buf": "C07", "state": "C13"}[profile]
+    default_prop = {"core": "C01", "conv": "C09", "exc": "C05", "act": "C04", "tree": "C12", "buf": "C07", "state": "C13", "contrib": "C09", "atoms": "C06"}[profile]
     gi = 0
     for i in range(0, count, per_tu):
         tu = TU()
@@ -819,6 +905,8 @@ def make_tus(profile, seed, count, per_tu=10, prop=None):
             g = G(tu, "g%d" % gi, rnd, profile, prop or default_prop)
             if profile == "buf":
                 g.buf_grammar()
+            elif profile == "atoms":
+                g.atoms_grammar(gi)
             else:
                 g.random_grammar()
             tu.grammars.append(g)
